@@ -319,11 +319,13 @@ pub struct Script {
     pub honest_read: bool,
     /// open()/create() never return a passthrough backing id (the asynchronous trait cannot express one)
     pub no_passthrough: bool,
+    /// readdir()/readdirplus() treat an error of the add_entry callback as "stop" and return Ok
+    pub swallow_dir_error: bool,
 }
 
 impl Default for Script {
     fn default() -> Self {
-        Script { err_permille: 200, kind_permille: 150, want: 0, init_err: None, ioctl_out: None, max_dir_entries: 12, honest_read: true, no_passthrough: false }
+        Script { err_permille: 200, kind_permille: 150, want: 0, init_err: None, ioctl_out: None, max_dir_entries: 12, honest_read: true, no_passthrough: false, swallow_dir_error: false }
     }
 }
 
@@ -1032,8 +1034,10 @@ impl ScriptFs {
                         let code = e.raw_os_error().unwrap_or(-1);
                         d.ret = Err(code);
                         entries.push(d);
-                        final_err = Some(ErrV::Raw(code));
-                        ret = Err(e);
+                        if !self.script.swallow_dir_error {
+                            final_err = Some(ErrV::Raw(code));
+                            ret = Err(e);
+                        }
                         break;
                     }
                 }
